@@ -10,7 +10,7 @@ import (
 )
 
 func (w *World) newExec(fn *ssa.Function, c *Contract) *Exec {
-	x := &Exec{w: w, entry: fn, entryKey: fnKey(fn), contract: c, trivial: map[string]int{}, ghostVars: w.ghostVars,
+	x := &Exec{w: w, entry: fn, entryKey: fnKey(fn), contract: c, trivial: map[string]int{}, trivialMeta: map[string]*Goal{}, ghostVars: w.ghostVars,
 		notes: map[string]bool{}, maxPaths: 4000, inlined: map[string]bool{}, usedSpecs: map[string]bool{},
 		loops: map[*ssa.Function]*loopAnalysis{}, maxDepth: 8}
 	return x
@@ -199,7 +199,7 @@ func (x *Exec) frameGoals(s *State, c *Contract) {
 		}
 		r := "r!fr"
 		t := Term{fmt.Sprintf("(forall ((%s Int)) (=> (and (< 0 %s) (<= %s %s)) (= (select %s %s) (select %s %s))))", r, r, r, s.oldAlloc.S, cur.S, r, old.S, r), "Bool"}
-		s.goal(x.entryKey+"#frame:"+n, "frame", []string{"C06"}, t, c.Where, "not in modifies clause: "+n)
+		s.goal(x.entryKey+"#frame", "frame", nil, t, c.Where, "not in modifies clause: "+n)
 	}
 	var gn []string
 	for n := range s.ghost {
@@ -208,7 +208,7 @@ func (x *Exec) frameGoals(s *State, c *Contract) {
 	sort.Strings(gn)
 	for _, n := range gn {
 		if s.ghost[n].S != s.oldGhost[n].S && !allowed[n] {
-			s.goal(x.entryKey+"#frame:"+n, "frame", []string{"C03"}, mkEq(s.ghost[n], s.oldGhost[n]), c.Where, "ghost not in modifies clause: "+n)
+			s.goal(x.entryKey+"#frame", "frame", nil, mkEq(s.ghost[n], s.oldGhost[n]), c.Where, "ghost not in modifies clause: "+n)
 		}
 	}
 }
@@ -281,11 +281,6 @@ func (x *Exec) loopEnv(s *State, li *loopInfo) *Env {
 			}
 		}
 	}
-	// snapshot taken at loop entry
-	if snap, ok := s.labels[li.key]; ok {
-		env.vars["$entryHeap"] = SVal{}
-		_ = snap
-	}
 	return env
 }
 
@@ -352,7 +347,7 @@ func (x *Exec) frameInvariants(s *State, li *loopInfo) []struct {
 
 func (x *Exec) checkInvariants(s *State, li *loopInfo, kind string) {
 	for _, fi := range x.frameInvariants(s, li) {
-		s.goal(fmt.Sprintf("%s#%s:%s:frame:%s", x.entryKey, kind, strings.ReplaceAll(li.key, " ", "_"), fi.name), kind, []string{"C06"}, fi.t, "", "loop leaves pre-existing objects untouched in "+fi.name)
+		s.goal(fmt.Sprintf("%s#%s:%s:frame", x.entryKey, kind, strings.ReplaceAll(li.key, " ", "_")), kind, nil, fi.t, "", "loop leaves pre-existing objects untouched in "+fi.name)
 	}
 	invs, _ := x.loopInvariants(li)
 	if len(invs) == 0 {
